@@ -513,13 +513,13 @@ pub open spec fn ends_ok(net: &Network, s: Seq<NodeIdx>) -> bool {
     usize
 //@closure 1
     -> (d: Distance) requires i < self.len(), self.network.has(self.nodes@[i as int]) ensures d == self.network.sp_node(self.nodes@[i as int]).sp_travel_distance()
-//@closure-params 2
+//@closure-params? 2
     &NodeIdx
-//@closure 2
+//@closure? 2
     -> (b: bool) requires self.network.has(*n) ensures b == (self.network.sp_node(*n) is Maintenance)
-//@closure-params 3
+//@closure-params? 3
     &NodeIdx
-//@closure 3
+//@closure? 3
     -> (b: bool) requires self.network.has(*n) ensures b == (self.network.sp_node(*n) is Maintenance)
 //@first
         proof {
@@ -668,13 +668,13 @@ pub open spec fn ends_ok(net: &Network, s: Seq<NodeIdx>) -> bool {
     &NodeIdx
 //@closure 4
     -> (d: Distance) requires self.network.has(*n) ensures d == self.network.sp_node(*n).sp_travel_distance()
-//@closure-params 5
+//@closure-params? 5
     &NodeIdx
-//@closure 5
+//@closure? 5
     -> (b: bool) requires self.network.has(*n) ensures b == (self.network.sp_node(*n) is Maintenance)
-//@closure-params 6
+//@closure-params? 6
     &NodeIdx
-//@closure 6
+//@closure? 6
     -> (b: bool) requires self.network.has(*n) ensures b == (self.network.sp_node(*n) is Maintenance)
 //@first
         let ghost p0 = path.node_sequence@;
